@@ -1,0 +1,15 @@
+//go:build verif
+
+package link_solicit
+
+// VerifGate, when set, is called at the schedule points of this package with
+// the name of the point: "accept.lock" before AcceptMountedStream takes the
+// mutex, "accept.locked" / "close.locked" just after AcceptMountedStream /
+// Close took it. It may block.
+var VerifGate func(name string)
+
+func verifGate(name string) {
+	if g := VerifGate; g != nil {
+		g(name)
+	}
+}
